@@ -145,7 +145,7 @@ ENGINES = [
     {"name": "wl-core", "path": "/verif/wl-core", "serves_properties": ["C01", "C02", "C05", "C07", "C08", "C09", "C10", "C11", "C12", "C13", "C14", "C15", "C16", "C17", "C18", "C19", "C20", "C21", "C22", "C23", "C24", "C25", "C27", "C28"],
      "kind_free_text": "Rust workload binaries linked against /repo/core (path dependency, feature verif): generated programs + online oracles; rebuilt under ASan for thorough tiers"},
     {"name": "wl-hook", "path": "/verif/wl-hook", "serves_properties": ["C02", "C14", "C15", "C18", "C23"],
-     "kind_free_text": "Rust binary run under LD_PRELOAD of the real open-coroutine-hook cdylib built from /repo: plain libc calls and dlsym'd C-ABI entry points (init, task create/join/timeout_join, maybe_grow_stack) with the same timing/outcome oracles"},
+     "kind_free_text": "Rust binary run under LD_PRELOAD of the real open-coroutine-hook cdylib built from /repo: plain libc calls and dlsym'd C-ABI entry points (init, task create/join/timeout_join, maybe_grow_stack) with the same timing/outcome oracles; the same scenarios run under valgrind memcheck in the thorough tier"},
     {"name": "driver", "path": "/verif/check", "serves_properties": [],
      "kind_free_text": "python3 driver: builds, fans seeded case ranges out over processes, resumes after crashes/hangs, matches signatures against known_findings.json, writes evidence/replay"},
 ]
